@@ -1360,7 +1360,24 @@ impl Peers {
         state: ProveState,
     ) -> Result<(), Status> {
         if let Some(mut peer) = self.inner.get_mut(&index) {
-            let has_reorg = !state.reorg_last_headers.is_empty();
+            // The previous proved header isn't in the new chain, even no reorg headers are provided
+            // (since the start of the request was moved to an earlier header).
+            let is_forked = peer
+                .state
+                .get_prove_state()
+                .map(|prev_state| {
+                    let prev_header = prev_state.get_last_header().header();
+                    state
+                        .last_headers
+                        .iter()
+                        .chain(Some(state.get_last_header().header()))
+                        .any(|header| {
+                            header.number() == prev_header.number()
+                                && header.hash() != prev_header.hash()
+                        })
+                })
+                .unwrap_or(false);
+            let has_reorg = !state.reorg_last_headers.is_empty() || is_forked;
             peer.state = peer.state.take().receive_last_state_proof(state)?;
             if has_reorg {
                 peer.latest_block_filter_hashes.clear();
